@@ -366,6 +366,26 @@ def run_sympy(case):
                     if not any(all(a <= b for a, b in zip(key, m)) for m in perm[: perm.index(n) + 1]):
                         V.append(f"Taylor/derivative series evaluated at {key} after requests {perm[:perm.index(n)+1]}")
         states += 1
+    # differential: a term at a higher / componentwise unrelated order -- here a decidably non-Hermitian one, with
+    # decidably non-zero (positive) symbols -- must not influence a request at order n: same value, no exception
+    xp, yp = sympy.symbols("x y", positive=True)
+    Hp = H.subs({x: xp, y: yp})
+    Nbad = sympy.Matrix([[0, sympy.I, 0], [sympy.I, 1, 0], [0, 0, 0]])
+    for bad_order, mono in (((3, 0), xp**3), ((1, 1), xp * yp), ((0, 2), yp**2)):
+        for n in [(1, 0), (0, 1), (2, 0), (0, 2), (1, 1), (2, 1)]:
+            if all(b <= a for a, b in zip(n, bad_order)):
+                continue  # the request needs the altered term
+            transitions += 1
+            ref = block_diagonalize(Hp, subspace_indices=[0, 1, 1], symbols=[xp, yp])
+            try:
+                alt = block_diagonalize(Hp + mono * Nbad, subspace_indices=[0, 1, 1], symbols=[xp, yp])
+                got = [o_[(0, 0) + n] for o_ in alt]
+            except Exception as e:  # noqa: BLE001
+                V.append(f"request at order {list(n)} fails ({type(e).__name__}: {str(e)[:60]}) because of a Hamiltonian term at order {list(bad_order)}")
+                continue
+            for w_, (g_, r_) in enumerate(zip(got, [o_[(0, 0) + n] for o_ in ref])):
+                if fingerprint(g_) != fingerprint(r_):
+                    V.append(f"output {w_} at order {list(n)} changes when the Hamiltonian term at order {list(bad_order)} is altered")
     return dict(
         violations=[dict(what=w, key=None) for w in V[:3]], nontrivial=True, outcome="sympy",
         stats=dict(states=states, transitions=transitions, traces_validated_against_impl=0),
